@@ -252,6 +252,10 @@ func extractFunc(f Facts, fset *token.FileSet, info *types.Info, dir, fn string,
 				}
 			case *ast.CallExpr:
 				fun := text(fset, t.Fun)
+				if strings.HasPrefix(fun, "maps.") {
+					// maps.Keys / maps.Values / maps.All: iteration in map order without a range statement
+					f["mapRanges"] = append(f["mapRanges"], where+": calls "+fun+" [iterates a map]")
+				}
 				if last := fun[strings.LastIndex(fun, ".")+1:]; orderLeaking[last] && !strings.Contains(fun, "(") {
 					args := make([]string, len(t.Args))
 					for i, a := range t.Args {
